@@ -257,6 +257,21 @@ func (r *Runner) exec(c model.Call) model.Obs {
 		_, err = w.Sub.UpdateSubscription(ctx, &pubsubpb.UpdateSubscriptionRequest{
 			Subscription: &pubsubpb.Subscription{Name: model.SubPath(c.Op.Sub), DeadLetterPolicy: &pubsubpb.DeadLetterPolicy{DeadLetterTopic: model.TopicPath(c.Op.Topic), MaxDeliveryAttempts: 3}, RetryPolicy: &pubsubpb.RetryPolicy{MinimumBackoff: durationpb.New(2 * time.Second)}},
 			UpdateMask:   &fieldmaskpb.FieldMask{Paths: []string{"dead_letter_policy", "retry_policy", "expiration_policy"}}})
+	case "streamWait":
+		// a StreamingPull that waits for its first message (the streaming
+		// counterpart of a blocking Pull)
+		var sent []*pubsubpb.ReceivedMessage
+		sent, err = streamUntilFirst(w.Sub, ctx, &pubsubpb.StreamingPullRequest{Subscription: model.SubPath(c.Op.Sub), StreamAckDeadlineSeconds: 10, MaxOutstandingMessages: 1000, MaxOutstandingBytes: 10 << 20, ClientId: "verif"}, 5*time.Minute)
+		if status.Code(err) == codes.Canceled || errors.Is(err, context.Canceled) {
+			err = nil
+		}
+		for _, rm := range sent {
+			m := model.RecvMsg{AckID: rm.AckId, Attempt: int(rm.DeliveryAttempt)}
+			if rm.Message != nil {
+				m.MsgID = rm.Message.MessageId
+			}
+			o.Msgs = append(o.Msgs, m)
+		}
 	case "stream":
 		// a StreamingPull session on the real handler: Tgt says where the ack ids go
 		first := &pubsubpb.StreamingPullRequest{Subscription: model.SubPath(c.Op.Sub), StreamAckDeadlineSeconds: 10, MaxOutstandingMessages: 1000, MaxOutstandingBytes: 10 << 20, ClientId: "verif"}
